@@ -44,6 +44,7 @@ def check(ctx):
     from . import C08
 
     C08.extractor_kinds(ctx, model.module("dask/core.py").func("keys_in_tasks"))
+    C08.converter_only_kinds(ctx, model)
 
 
 def _get_async_calls(func):
